@@ -7,8 +7,9 @@ import os
 import re
 import shutil
 import subprocess
+import threading
 
-from vlib.common import REPO, BUILD, cargo_env, run_tool, pmap, MachineryError, sha, _repo_tag
+from vlib.common import REPO, BUILD, NCPU, cargo_env, run_tool, pmap, MachineryError, sha, _repo_tag
 
 # ---------------------------------------------------------------------------------------------
 # 1. name universe: every C / C++ / JS reserved word or predeclared name (whether it is a legal Rust identifier is decided by
@@ -258,7 +259,7 @@ pub mod ffi {
     }
     impl CycS2 {
         pub fn s1(self) -> CycS1 %(U)s
-        pub fn e(self) -> CycE { CycE::X }
+        pub fn get_e(self) -> CycE { CycE::X }
         pub fn opt(self) -> Option<CycS1> { None }
     }
     impl CycE {
@@ -295,7 +296,7 @@ pub mod ffi {
         pub fn outer(self) -> CycOuter %(U)s
     }
     impl CycOuter {
-        pub fn inner(self) -> CycInner %(U)s
+        pub fn get_inner(self) -> CycInner %(U)s
     }
     // borrowing struct <-> opaque
     pub struct CycRef<'a> { pub a: &'a CycA }
@@ -614,14 +615,19 @@ def js_cmd(path):
     return ["node", "--check", path]
 
 
+_SLOTS = threading.BoundedSemaphore(NCPU)
+
+
 def run_cmd(cmd, timeout=300):
+    """one compiler / node process; at most NCPU at a time however many thread pools are active"""
     env = dict(os.environ)
     env["LC_ALL"] = "C"
-    try:
-        p = subprocess.run(cmd, stdout=subprocess.PIPE, stderr=subprocess.PIPE, text=True, errors="replace", timeout=timeout, env=env)
-        return p.returncode, (p.stderr or "") + (p.stdout or "")
-    except subprocess.TimeoutExpired:
-        return -999, "TIMEOUT"
+    with _SLOTS:
+        try:
+            p = subprocess.run(cmd, stdout=subprocess.PIPE, stderr=subprocess.PIPE, text=True, errors="replace", timeout=timeout, env=env)
+            return p.returncode, (p.stderr or "") + (p.stdout or "")
+        except subprocess.TimeoutExpired:
+            return -999, "TIMEOUT"
 
 
 def first_errors(text, n=6):
